@@ -416,3 +416,23 @@ CHECKS["C11"]["technique"] += "; generated-schedule exploration for overlapping 
 CHECKS["C14"]["technique"] += "; generated-schedule exploration for push/log races"
 CHECKS["C18"]["technique"] = ("property-based testing (rapid): round-trip + negative-input + differential (reference frame parser) oracles, exhaustive chunking "
                               "enumeration; coverage-guided native go fuzzing of the differential oracle in the thorough tier")
+
+_ADDED5 = {
+    "C01": "Further mutant classes: (e) a genuine message relayed as a push under the content identifier of a forged entry, then the forged entry through the store; (f) forgeries attributed to the opening device itself at its next counters.",
+    "C02": "The random histories also use ONE sender device known on the account group and a one-to-one group (receiver = sibling device).",
+    "C03": "Forgeries in which the signer / member field occurs twice in the encoding; state compared while the forged entry is the newest entry of the log.",
+    "C04": "Bounded-exhaustive tier over every sequence of the operations about one subject (join/leave, enable/disable/reset, contact operations in the thorough tier).",
+    "C05": "Half of the activations are followed at once by a sync to another, possibly inactive, replica (entries received before joining).",
+    "C06": "Also: Ed25519 account keys of small order on either side, hostile length prefixes in place of every frame (a panic of an honest party is a violation), honest session over a segmenting transport.",
+    "C07": "",
+    "C09": "Controlled first-use scenario (one task records the group, shares the key and sends while others announce it for the first time); own messages relayed back outside the store.",
+    "C11": "Injected single read failures of keystore entries (identity unchanged afterwards); a group whose identifier is a contact's account key derived on a device that knows the contact and on a fresh one.",
+    "C12": "The invitation test continues after the genuine join: leave, altered invitations again, genuine re-join; identity test with an invitation named after a known contact.",
+    "C14": "A quarter of the sessions use ONE sender device known on 2-3 groups (account group and one-to-one groups, receiver = sibling device).",
+    "C17": "The same rotation instance is asked again for the same topic and period with another seed.",
+    "C19": "Exhaustive short sequences of the argument-less requests on fresh services; every method called three times in a row with the same request.",
+    "C20": "Histories with a log that has two heads at export time; mutant with a duplicated heads file; after a rejected archive the untouched export must still restore into the same node; a death of the process during a restore is a violation (crash pattern).",
+}
+for _k, _v in _ADDED5.items():
+    if _v:
+        CHECKS[_k]["level_text"] += " " + _v
